@@ -1,19 +1,30 @@
 /-
 C18 — temporary files: when the process exits, no temporary file it created is
 left on disk — after a normal run (although the main thread does not join the
-workers) and after a SIGINT (at whatever moment the process exits after the
-handler ran), PROVIDED no worker creates its file after the handler ran. Without
-that proviso the statement is false (`C18_full_false`).
+workers) and after a SIGINT, at whatever moment the handler runs and at whatever
+moment the process exits after it (`C18_full_holds`).
 
-The theorems about `runGen` unfold the generated constants `createUnderLock`
-and `dropBeforeSummary` inside their proofs: regenerating either as `false`
-breaks them, and `gap_without_lock` / `summary_before_drop` show the leftover
-each of the two other orders produces.
+The source refuses to create a temporary file once the handler has run (the
+NAMED_TEMP_FILES_CLOSED flag, set and tested under the NAMED_TEMP_FILES lock;
+regenerated as `createRefusedAfterHandler`). Without that flag the statement
+needs the proviso "no worker creates its file after the handler ran"
+(`C18_sigint_param`) and is false without it (`C18_full_without_flag_false`).
+
+The theorems about `runGen` unfold the generated constants `createUnderLock`,
+`dropBeforeSummary` and `createRefusedAfterHandler` inside their proofs:
+regenerating any of them as `false` breaks them, and `gap_without_lock` /
+`summary_before_drop` / `late_create_without_flag` show the leftover each of
+the three other orders produces.
 -/
 import S4V.Lemmas.Tmp
 
 namespace S4V.Props.C18
 open S4V.Model.Tmp S4V.Gen.Tmp S4V.Lemmas.Tmp
+
+/-- the source, as regenerated: creation+listing under the lock, reader dropped before the final
+summary, creation refused once the handler ran. Proved by unfolding the three generated constants:
+regenerating any of them as `false` breaks this (and everything below that rests on it). -/
+theorem runGen_eq : runGen = runC true true := rfl
 
 /-! ## 1. normal run -/
 
@@ -28,7 +39,8 @@ the last summary without waiting for the workers -/
 theorem C18_normal (n : Nat) (evs : List Ev) (s : St)
     (hrun : runGen (init n) evs = some s) (hex : s.exited = true) (hno : Ev.sigint ∉ evs) :
     leftovers s = 0 := by
-  simp only [runGen, createUnderLock, dropBeforeSummary] at hrun
+  rw [runGen_eq] at hrun
+  rw [runC_eq_run_of_no_sigint true true (init n) evs rfl hno] at hrun
   exact C18_normal_param n evs s hrun hex hno
 
 /-! ## 2. run with (or without) a SIGINT -/
@@ -85,47 +97,57 @@ theorem NoLateCreateP_iff (ul df : Bool) (n : Nat) (evs : List Ev) :
 theorem NoLateCreate_iff (n : Nat) (evs : List Ev) :
     NoLateCreate n evs ↔
       ∀ pre i post t, evs = pre ++ Ev.work i :: post → Ev.sigint ∈ pre →
-        runGen (init n) pre = some t → t.phase.getD i .done ≠ .start :=
+        run createUnderLock dropBeforeSummary (init n) pre = some t → t.phase.getD i .done ≠ .start :=
   NoLateCreateP_iff _ _ n evs
 
 /-- a run without SIGINT has no late creation -/
 theorem NoLateCreate_of_no_sigint (n : Nat) (evs : List Ev) (hno : Ev.sigint ∉ evs) : NoLateCreate n evs :=
   noLate_of_no_sigint _ _ (init n) evs rfl hno
 
-/-- repaired order, as parameters -/
+/-- order without the closed flag, as parameters: the proviso is needed (see §3) -/
 theorem C18_sigint_param (n : Nat) (evs : List Ev) (s : St)
     (hrun : run true true (init n) evs = some s) (hex : s.exited = true)
     (hnl : NoLateCreateP true true n evs) : leftovers s = 0 :=
   leftovers_zero_of_noLate hrun hex hnl
 
-/-- the source's order: whether or not a SIGINT occurred, and at whatever moment the process exits
-after it, an exited run in which no worker creates its file after the handler ran leaves no
-temporary file -/
-theorem C18_sigint (n : Nat) (evs : List Ev) (s : St)
-    (hrun : runGen (init n) evs = some s) (hex : s.exited = true) (hnl : NoLateCreate n evs) :
-    leftovers s = 0 := by
-  simp only [runGen, createUnderLock, dropBeforeSummary] at hrun
-  simp only [NoLateCreate, createUnderLock, dropBeforeSummary] at hnl
-  exact C18_sigint_param n evs s hrun hex hnl
-
-/-! ## 3. the unrestricted statement is false -/
-
-/-- the statement of `C18_sigint` without `NoLateCreate` -/
+/-- the statement of C18 for the model: every exited run — with or without a SIGINT, the handler
+running at any moment, the process exiting at any moment after it — leaves no temporary file -/
 def C18_full : Prop :=
   ∀ (n : Nat) (evs : List Ev) (s : St), runGen (init n) evs = some s → s.exited = true → leftovers s = 0
 
+/-- the source's order of operations (creation and listing under the lock, reader dropped before the
+final summary, creation refused once the handler ran): C18 holds at full strength -/
+theorem C18_full_holds : C18_full := by
+  intro n evs s hrun hex
+  rw [runGen_eq] at hrun
+  exact leftovers_zero_closed hrun hex
+
+/-- the same, in the words of the property: after a SIGINT at any moment -/
+theorem C18_sigint (n : Nat) (evs : List Ev) (s : St)
+    (hrun : runGen (init n) evs = some s) (hex : s.exited = true) : leftovers s = 0 :=
+  C18_full_holds n evs s hrun hex
+
+/-- SIGINT first, then the worker reaches `decompress_to_ntf`: it is refused, nothing is created -/
+example : runGen (init 1) [.sigint, .work 0, .exit] = some ⟨[.done], [false], [false], true, true⟩ := by decide
+
+/-! ## 3. without the closed flag the unrestricted statement is false -/
+
+/-- the statement of C18 for the order of operations without the closed flag -/
+def C18_full_without_flag : Prop :=
+  ∀ (n : Nat) (evs : List Ev) (s : St), run true true (init n) evs = some s → s.exited = true → leftovers s = 0
+
 /-- one worker, SIGINT first: the handler finds nothing listed, the worker then creates and lists
 its file, the main thread sees EXIT_EARLY and exits — the file stays -/
-theorem late_create_witness :
-    runGen (init 1) [.sigint, .work 0, .exit] = some ⟨[.listed], [true], [true], true, true⟩ := by
+theorem late_create_without_flag :
+    run true true (init 1) [.sigint, .work 0, .exit] = some ⟨[.listed], [true], [true], true, true⟩ := by
   decide
 
-theorem C18_full_false : ¬ C18_full := by
+theorem C18_full_without_flag_false : ¬ C18_full_without_flag := by
   intro h
-  exact absurd (h 1 [.sigint, .work 0, .exit] _ late_create_witness (by decide)) (by decide)
+  exact absurd (h 1 [.sigint, .work 0, .exit] _ late_create_without_flag (by decide)) (by decide)
 
-/-- the witness is excluded by the proviso, as it should be -/
-example : ¬ NoLateCreate 1 [.sigint, .work 0, .exit] := by decide
+/-- the witness is excluded by the proviso of `C18_sigint_param`, as it should be -/
+example : ¬ NoLateCreateP true true 1 [.sigint, .work 0, .exit] := by decide
 
 /-! ## 4. why the two source orders matter -/
 
@@ -174,6 +196,11 @@ example : (runGen (init 2) [.work 0, .work 1, .work 0, .sigint, .work 0, .exit])
     (fun s => (s.exited, leftovers s, s.phase)) = some (true, 0, [.done, .listed]) := by decide
 
 example : NoLateCreate 2 [.work 0, .work 1, .work 0, .sigint, .work 0, .exit] := by decide
+
+/-- two workers, the second reaches `decompress_to_ntf` only after the handler ran: worker 0's listed
+file is removed by the handler, worker 1 is refused; nothing is left -/
+example : (runGen (init 2) [.work 0, .sigint, .work 1, .exit]).map
+    (fun s => (s.exited, leftovers s, s.phase)) = some (true, 0, [.listed, .done]) := by decide
 
 /-- the main thread cannot exit in the middle of a normal run -/
 example : runGen (init 2) [.work 0, .work 1, .work 0, .exit] = none := by decide
